@@ -49,12 +49,14 @@ pub fn run(ctx: &Ctx, out: &mut Out) {
             // 1. complete the root table
             let mut n = 0usize;
             let q = peeled.clone();
-            let finished = catch(std::panic::AssertUnwindSafe(|| {
-                solver.solve_multiple(&db, &q, &mut |_r, _more| {
-                    n += 1;
-                    n < 40
-                })
-            }));
+            let finished = with_default_budgets(|| {
+                catch(std::panic::AssertUnwindSafe(|| {
+                    solver.solve_multiple(&db, &q, &mut |_r, _more| {
+                        n += 1;
+                        n < 40
+                    })
+                }))
+            });
             match finished {
                 Ok(true) => {}
                 Ok(false) => {
@@ -81,7 +83,7 @@ pub fn run(ctx: &Ctx, out: &mut Out) {
             out.count(&format!("ms_answers_{}", stored.len().min(6)));
             // 3. the real aggregate on the same solver
             let q2 = peeled.clone();
-            let real = match catch(std::panic::AssertUnwindSafe(|| solver.solve(&db, &q2))) {
+            let real = match with_default_budgets(|| catch(std::panic::AssertUnwindSafe(|| solver.solve(&db, &q2)))) {
                 Ok(r) => r,
                 Err(site) => {
                     out.fail(&format!("solve on a completed table panicked: {}", site), &label, "slg_solve_on_completed_table_panic");
